@@ -2,6 +2,7 @@ import Rare.Base.Proto
 import Rare.Model.C12
 import Rare.Model.C12Go
 import Rare.Spec.C12Grammar
+import Rare.Spec.C12Lazy
 import Rare.Model.C16
 namespace Rare.Drv.C12
 open Rare Rare.C12 Rare.Proto
@@ -102,6 +103,20 @@ def handle : List String → String
         let rs := (cycle lines rep).map fun l => (f l).map (·.map Int.ofNat)
         s!"ok n={renderNames (nameTable p.toks)} a=1 r={renderRes rs}"
     | _, _, _, _, _ => "bad-args"
+  -- the DECLARATIVE specification: the pattern as the lazy regular expression `lit0(.*?)lit1…`, run by the
+  -- backtracking matcher of `Spec/C12Lazy.lean` (`dissect_eq_backtracking`); the Go side also asks Go's regexp
+  | ["lazy", ic, pre, keys, lits, lines] =>
+    match Hex.dec pre, decHexList keys, decHexList lits, decHexList lines with
+    | some pre, some keys, some lits, some lines =>
+      if keys.length ≠ lits.length then "bad-args" else
+      let p : Pat := ⟨pre, (keys.zip lits).map fun kl => ⟨kl.1, kl.2⟩⟩
+      if ¬ (decide p.Shape) then "unmodelled shape" else
+      match specErrors false p.toks [] with
+      | some e => s!"err {specErrName e}"
+      | none =>
+        let f := if ic == "1" then lazyDissectIC p else lazyDissect p
+        s!"ok r={renderRes (lines.map fun l => (f l).map (·.map Int.ofNat))}"
+    | _, _, _, _ => "bad-args"
   -- the GRAMMAR (one-pass recogniser of `Spec/C12Grammar.lean`) against `CompileEx`: the answer is the
   -- recogniser's verdict and the model's error class; when recogniser and model disagree the answer is
   -- one the implementation can never give
